@@ -147,7 +147,7 @@ pub fn c01(ctx: &Ctx, st: &mut Stats) {
             0 => tg::nesting_case(&mut r),
             1 => tg::speculation_case(&mut r),
             2 => tg::datalines_case(&mut r),
-            3 => tg::deep_call_case(&mut r),
+            3 => if r.chance(1, 2) { tg::deep_call_case(&mut r) } else { tg::cascade_case(&mut r) },
             4 => {
                 let k = r.below(1 << 20);
                 let b = crate::diffprops::diff_input("C18", r.next_u64(), k, ctx.tier, ctx.corpus);
@@ -605,7 +605,15 @@ fn c08_one(st: &mut Stats, s: &str, context: &str) {
     let Some(res) = ex.result() else { return };
     let v = View::new(s, res);
     st.observe_view(&v);
-    let fs = numeric::check_c08(&v);
+    let mut fs = numeric::check_c08(&v);
+    // macro-free text: the numeric tokens (span, type, errors) are those of the reference reading
+    if fs.is_empty() && reflex::is_macro_free(s) {
+        for f in reflex::check_c11(&v) {
+            if ["IntegerLiteral", "FloatLiteral", "FloatExponentLiteral", "InvalidNumericLiteral", "UnterminatedHexNumericLiteral"].iter().any(|k| f.sig.contains(k)) {
+                fs.push(Finding::new("C08.reference", &f.sig, f.msg));
+            }
+        }
+    }
     record(st, &fs, &[s]);
     let n = numeric::numeric_tokens(&v);
     if n > 0 {
@@ -619,8 +627,38 @@ fn c08_one(st: &mut Stats, s: &str, context: &str) {
     }
 }
 
+/// A valid literal written as the whole operand of an arithmetic context. Whether the lexer reads
+/// it as a numeric token there is *not* part of C08 (the property speaks about numeric tokens; in
+/// float mode `1.e1` is text on the pinned tree, in integer mode `1.5` is text by design): the
+/// outcome is only counted, the numeric tokens that do appear are judged like all others.
+fn c08_operand(st: &mut Stats, lit: &str, r: &mut Rng) {
+    let Some((ety, _)) = numeric::read_numeric(lit) else { return };
+    let all_digits = lit.bytes().all(|b| b.is_ascii_digit());
+    let hex = lit.ends_with(['x', 'X']);
+    let float_ctx = r.chance(1, 2) || !(hex || (all_digits && ety == TokenType::IntegerLiteral));
+    let s = if float_ctx {
+        let t = r.pick(&["%sysevalf({})", "%sysfunc(f({}))", "%sysevalf( {} )", "%sysevalf(1+{})", "%sysfunc(f(x, {}))", "%qsysfunc(putn({}, best32.))", "%sysevalf({}, ceil)"]);
+        t.replace("{}", lit)
+    } else {
+        let t = r.pick(&["%eval({})", "%if {} %then x;", "%eval(1 + {})", "%do i={} %to 2; %end;", "%eval( {} )", "%substr(abc, {})"]);
+        t.replace("{}", lit)
+    };
+    let ctx_name = if float_ctx { "float-operand" } else { "integer-operand" };
+    c08_one(st, &s, ctx_name);
+}
+
 pub fn c08(ctx: &Ctx, st: &mut Stats) {
     let mut r = ctx.rng(0);
+    for lit in tg::NUMERIC_BOUNDARY {
+        for _ in 0..4 {
+            c08_operand(st, lit, &mut r);
+        }
+    }
+    let n = ctx.draws(20_000, 300_000);
+    for k in 0..n {
+        let lit = if k % 2 == 0 { tg::numeric_spelling(&mut r) } else { tg::random_double_text(&mut r) };
+        c08_operand(st, &lit, &mut r);
+    }
     // boundary values in every context (all shards split the list)
     for (i, lit) in tg::NUMERIC_BOUNDARY.iter().enumerate() {
         if i % ctx.nshards != ctx.shard {
@@ -943,6 +981,23 @@ pub fn c14_prog(st: &mut Stats, p: &grammar::Prog, r: &mut Rng) {
                 st.count(&format!("deleted_{}_{:?}", d.construct, d.token), 1);
                 if d.padded {
                     st.nontrivial(src.as_bytes(), || sample(&src, Some(res), &format!("deleted {:?} of {} (expected error at byte {at})", d.token, d.construct)));
+                }
+                // the same omission with a character that belongs to nothing in its place
+                if d.expect_at.is_none() && r.chance(1, 4) {
+                    let foreign = r.pick(&['\0', '\u{1}', '\u{7f}', '`', '\\', '\u{200b}', '\u{feff}']);
+                    let src2 = format!("{}{}{}", &src[..at], foreign, &src[at..]);
+                    st.cases += 1;
+                    let ex2 = exec(&src2);
+                    st.observe_exec(&ex2);
+                    if let Some(res2) = ex2.result() {
+                        let v2 = View::new(&src2, res2);
+                        let mut fs = wellformed::check_c14(d, at, &v2);
+                        for f in &mut fs {
+                            f.sig.push_str("|foreign-char-in-place");
+                        }
+                        record(st, &fs, &[&src2]);
+                        st.count("deletions_with_foreign_char_in_place", 1);
+                    }
                 }
             }
         }
